@@ -204,7 +204,10 @@ REGISTRY = {
         "claim": "Generated constructor argument lists over all Go scalar/slice/string/other types, all byte sizes and values at/beyond each width's bounds, compared with a table-driven model of the documented clamp/refuse contract; errored items (direct and nested) checked against Equal, message constructors and builders.",
         "trust": 'Trusts the contract model in props/c16_test.go (written from the constructor docs).',
         "technique": 'property-based testing (rapid): model-based oracle',
-        "tests": [{"name": "TestC16Constructors", "shards": 4, "shards_thorough": 16}],
+        "tests": [
+            {"name": "TestC16Constructors", "shards": 4, "shards_thorough": 16},
+            {"name": "TestC16Wire", "shards": 4, "shards_thorough": 16, "crash_is_violation": True},
+        ],
         "require": {"c16:binary": 775, "c16:boolean": 989, "c16:clamped": 804, "c16:float": 1544, "c16:int": 2824, "c16:refused": 4344, "c16:uint": 1866, "c16:value": 2852},
     },
     "C14": {
